@@ -18,7 +18,7 @@ using namespace verif;
 using tbox::util::AsyncPipe;
 
 namespace {
-enum { CFG, SCHED, APP, GROUP, PAUSE, NOPS };
+enum { CFG, SCHED, APP, GROUP, PAUSE, LIFE, NOPS };
 const int kMaxProd = 6;
 const int64_t kBuffSizes[] = {1, 2, 3, 7, 64, 1024};
 const int64_t kIntervals[] = {1, 5, 50, 3600000};
@@ -62,34 +62,12 @@ size_t pick_size(int64_t mode, int64_t k, size_t buff) {
   }
 }
 
-std::string run(const Scenario &s, CaseInfo &info) {
-  // ---- decode
-  AsyncPipe::Config cfg;
-  int nprod = 2; unsigned sink_us = 0; uint64_t seed = 1;
-  for (auto &e : g_sched) e = SchedEntry();
-  std::vector<Step> script[kMaxProd];
-  for (auto &op : s.ops) {
-    switch (op.code) {
-      case CFG:
-        cfg.buff_size = (size_t)kBuffSizes[op.in(0, 0, 5)];
-        cfg.buff_min_num = (size_t)op.in(1, 1, 3);
-        cfg.buff_max_num = cfg.buff_min_num + (size_t)op.in(2, 0, 3);
-        cfg.interval = (size_t)kIntervals[op.in(3, 0, 3)];
-        nprod = (int)op.in(4, 1, kMaxProd);
-        sink_us = (unsigned)op.in(5, 0, 3) == 3 ? (unsigned)op.in(6, 0, 300) : 0;
-        seed = (uint64_t)op.in(7, 1, 1 << 30);
-        break;
-      case SCHED: { auto &e = g_sched[op.in(0, 0, 3)]; e.permille = (unsigned)op.in(1, 0, 1000); e.delay_us = (unsigned)op.in(2, 0, 2000); break; }
-      case APP: { Step st; st.kind = 0; st.pause_us = 0; st.sizes.push_back(pick_size(op.in(1, 0, 7), op.in(2, 0, 100000), cfg.buff_size)); script[op.in(0, 0, kMaxProd - 1)].push_back(st); break; }
-      case GROUP: { Step st; st.kind = 1; st.pause_us = 0; int n = (int)op.in(1, 1, 3);
-        for (int i = 0; i < n; ++i) st.sizes.push_back(pick_size(op.in(2 + i, 0, 7), op.in(5, 0, 100000) + i, cfg.buff_size));
-        script[op.in(0, 0, kMaxProd - 1)].push_back(st); break; }
-      case PAUSE: { Step st; st.kind = 2; st.pause_us = (unsigned)op.in(1, 0, 12000); script[op.in(0, 0, kMaxProd - 1)].push_back(st); break; }
-      default: break;
-    }
-  }
-  g_sched_seed = seed; g_sched_hits = 0;
+struct Life { AsyncPipe::Config cfg; std::vector<Step> script[kMaxProd]; unsigned sink_us = 0; };
 
+// one life of the pipe object: initialize, producers, cleanup, oracle
+std::string run_life(AsyncPipe &pipe, Life &life, int nprod, int life_no, CaseInfo &info, bool &nontrivial) {
+  AsyncPipe::Config &cfg = life.cfg; unsigned sink_us = life.sink_us;
+  auto &script = life.script;
   // ---- expected appends per producer (logical append = one APP or one whole GROUP)
   std::vector<size_t> expect_len[kMaxProd];
   size_t total = 0; bool big_append = false;
@@ -105,7 +83,6 @@ std::string run(const Scenario &s, CaseInfo &info) {
   std::mutex out_mu; std::string out; std::vector<size_t> block_sizes;
   std::atomic<int> in_cb{0}; std::atomic<bool> overlap{false};
   {
-    AsyncPipe pipe;
     if (!pipe.initialize(cfg)) return "initialize() refused a valid configuration";
     pipe.setCallback([&](const void *p, size_t n) {
       if (in_cb.fetch_add(1) != 0) overlap = true;
@@ -113,7 +90,6 @@ std::string run(const Scenario &s, CaseInfo &info) {
       if (sink_us) spin_us(sink_us);
       in_cb.fetch_sub(1);
     });
-    tbox::verif::SchedPointHookRef().store(&sched_hook);
     std::vector<std::thread> th;
     for (int p = 0; p < nprod; ++p) {
       th.emplace_back([&, p] {
@@ -132,35 +108,35 @@ std::string run(const Scenario &s, CaseInfo &info) {
     for (auto &t : th) t.join();
     size_t before_cleanup; { std::lock_guard<std::mutex> lg(out_mu); before_cleanup = out.size(); }
     pipe.cleanup();     // a hang here is caught by the per-case watchdog (--case-alarm)
-    tbox::verif::SchedPointHookRef().store(nullptr);
     // everything must be delivered when cleanup() returns: 'out' is read without waiting
     info.cls_if(before_cleanup < total, "cleanup_had_to_flush");
   }
-  if (overlap) return "sink callbacks overlapped";
+  char buf[300];
+  char lifetag[32]; snprintf(lifetag, sizeof lifetag, "life %d: ", life_no);
+  if (overlap) return std::string(lifetag) + "sink callbacks overlapped";
 
   // ---- oracle: greedy parse into whole appends
   size_t next[kMaxProd] = {0}; size_t cnt[kMaxProd] = {0};   // next append index / running byte count per producer
   auto skip_empty = [&](int p) { while (next[p] < expect_len[p].size() && expect_len[p][next[p]] == 0) next[p]++; };
   for (int p = 0; p < nprod; ++p) skip_empty(p);
   size_t pos = 0;
-  char buf[256];
   while (pos < out.size()) {
     int p = ((unsigned char)out[pos]) >> 5;
     if (p >= nprod || next[p] >= expect_len[p].size()) {
-      snprintf(buf, sizeof buf, "output offset %zu: byte of producer %d which has nothing (more) to deliver (duplicate or invented data)", pos, p); return buf; }
+      snprintf(buf, sizeof buf, "%soutput offset %zu: byte of producer %d which has nothing (more) to deliver (duplicate or invented data)", lifetag, pos, p); return buf; }
     size_t L = expect_len[p][next[p]];
-    if (pos + L > out.size()) { snprintf(buf, sizeof buf, "output offset %zu: append #%zu of producer %d (len %zu) is cut short by end of output (lost bytes)", pos, next[p], p, L); return buf; }
+    if (pos + L > out.size()) { snprintf(buf, sizeof buf, "%soutput offset %zu: append #%zu of producer %d (len %zu) is cut short by end of output (lost bytes)", lifetag, pos, next[p], p, L); return buf; }
     for (size_t i = 0; i < L; ++i) {
       unsigned char e = (unsigned char)((p << 5) | ((cnt[p] + i) & 31));
       if ((unsigned char)out[pos + i] != e) {
-        snprintf(buf, sizeof buf, "output offset %zu: append #%zu of producer %d (len %zu) is not contiguous/in order at byte %zu (got 0x%02x, expected 0x%02x)", pos, next[p], p, L, i, (unsigned char)out[pos + i], e);
+        snprintf(buf, sizeof buf, "%soutput offset %zu: append #%zu of producer %d (len %zu) is not contiguous/in order at byte %zu (got 0x%02x, expected 0x%02x)", lifetag, pos, next[p], p, L, i, (unsigned char)out[pos + i], e);
         return buf; }
     }
     pos += L; cnt[p] += L; next[p]++; skip_empty(p);
   }
   for (int p = 0; p < nprod; ++p)
-    if (next[p] != expect_len[p].size()) { snprintf(buf, sizeof buf, "producer %d: %zu of %zu appends missing from the output after cleanup() returned", p, expect_len[p].size() - next[p], expect_len[p].size()); return buf; }
-  if (out.size() != total) return "output size differs from the total appended";
+    if (next[p] != expect_len[p].size()) { snprintf(buf, sizeof buf, "%sproducer %d: %zu of %zu appends missing from the output after cleanup() returned", lifetag, p, expect_len[p].size() - next[p], expect_len[p].size()); return buf; }
+  if (out.size() != total) return std::string(lifetag) + "output size differs from the total appended";
 
   bool partial_block = false;
   for (size_t i = 0; i + 1 < block_sizes.size(); ++i) if (block_sizes[i] < cfg.buff_size) partial_block = true;
@@ -168,16 +144,58 @@ std::string run(const Scenario &s, CaseInfo &info) {
   info.cls_if(big_append, "append_gt_2_buffers");
   info.cls_if(partial_block, "timed_flush_of_partial_buffer");
   info.cls_if(cfg.interval == 3600000, "interval_1h");
-  info.cls_if(g_sched_hits.load() > 0, "sched_point_delay_applied");
   info.cls_if(sink_us > 0, "slow_sink");
-  info.nontrivial = nprod >= 2 && total > 0 && (big_append || partial_block || sink_us > 0);
+  info.cls_if(life_no > 0 && total > 0, "data_in_a_later_life_of_the_same_pipe_object");
+  if (nprod >= 2 && total > 0 && (big_append || partial_block || sink_us > 0)) nontrivial = true;
+  return "";
+}
+
+std::string run(const Scenario &s, CaseInfo &info) {
+  // ---- decode: a scenario is 1-3 "lives" of ONE AsyncPipe object (initialize .. cleanup, then initialize again)
+  int nprod = 2; uint64_t seed = 1;
+  for (auto &e : g_sched) e = SchedEntry();
+  std::vector<Life> lives(1);
+  auto set_cfg = [](Life &lf, const Op &op) {
+    lf.cfg.buff_size = (size_t)kBuffSizes[op.in(0, 0, 5)];
+    lf.cfg.buff_min_num = (size_t)op.in(1, 1, 3);
+    lf.cfg.buff_max_num = lf.cfg.buff_min_num + (size_t)op.in(2, 0, 3);
+    lf.cfg.interval = (size_t)kIntervals[op.in(3, 0, 3)];
+    lf.sink_us = (unsigned)op.in(5, 0, 3) == 3 ? (unsigned)op.in(6, 0, 300) : 0;
+  };
+  for (auto &op : s.ops) {
+    Life &lf = lives.back();
+    switch (op.code) {
+      case CFG: set_cfg(lives[0], op); nprod = (int)op.in(4, 1, kMaxProd); seed = (uint64_t)op.in(7, 1, 1 << 30); break;
+      case LIFE: if (lives.size() < 3) { lives.emplace_back(); set_cfg(lives.back(), op); } break;
+      case SCHED: { auto &e = g_sched[op.in(0, 0, 3)]; e.permille = (unsigned)op.in(1, 0, 1000); e.delay_us = (unsigned)op.in(2, 0, 2000); break; }
+      case APP: { Step st; st.kind = 0; st.pause_us = 0; st.sizes.push_back(pick_size(op.in(1, 0, 7), op.in(2, 0, 100000), lf.cfg.buff_size)); lf.script[op.in(0, 0, kMaxProd - 1)].push_back(st); break; }
+      case GROUP: { Step st; st.kind = 1; st.pause_us = 0; int n = (int)op.in(1, 1, 3);
+        for (int i = 0; i < n; ++i) st.sizes.push_back(pick_size(op.in(2 + i, 0, 7), op.in(5, 0, 100000) + i, lf.cfg.buff_size));
+        lf.script[op.in(0, 0, kMaxProd - 1)].push_back(st); break; }
+      case PAUSE: { Step st; st.kind = 2; st.pause_us = (unsigned)op.in(1, 0, 12000); lf.script[op.in(0, 0, kMaxProd - 1)].push_back(st); break; }
+      default: break;
+    }
+  }
+  g_sched_seed = seed; g_sched_hits = 0;
+  bool nontrivial = false;
+  std::string err;
+  {
+    AsyncPipe pipe;
+    tbox::verif::SchedPointHookRef().store(&sched_hook);
+    for (size_t li = 0; li < lives.size() && err.empty(); ++li) err = run_life(pipe, lives[li], nprod, (int)li, info, nontrivial);
+    tbox::verif::SchedPointHookRef().store(nullptr);
+  }
+  if (!err.empty()) return err;
+  info.cls_if(g_sched_hits.load() > 0, "sched_point_delay_applied");
+  info.cls_if(lives.size() > 1, "pipe_object_initialised_again_after_cleanup");
+  info.nontrivial = nontrivial;
   return "";
 }
 
 SubDef def = [] {
   SubDef d; d.name = "pipe";
-  d.op_names = {"cfg", "sched", "app", "group", "pause"};
-  d.op_arity = {8, 3, 3, 6, 2};
+  d.op_names = {"cfg", "sched", "app", "group", "pause", "life"};
+  d.op_arity = {8, 3, 3, 6, 2, 7};
   d.nt_rule = ">= 2 producer threads with data, and (an append larger than 2 buffers, or a timed flush of a partial buffer observed as a short block before the end, or a slow sink callback giving back-pressure)";
   d.run = run;
 #ifndef VERIF_ENGINE_FUZZ
@@ -189,6 +207,7 @@ SubDef def = [] {
       {8, mkop(APP, {prod, mode, k})},
       {3, mkop(GROUP, {prod, range(1, 3), mode, mode, mode, k})},
       {4, mkop(PAUSE, {prod, rc::gen::weightedOneOf<int64_t>({{2, range(0, 50)}, {2, range(1000, 3000)}, {1, range(5000, 12000)}})})},
+      {1, mkop(LIFE, {range(0, 5), range(1, 3), range(0, 3), oneOfValues({0, 0, 0, 1, 1, 2, 3, 3}), range(0, 0), range(0, 3), range(0, 300)})},
     });
     auto cfg = mkop(CFG, {range(0, 5), range(1, 3), range(0, 3), oneOfValues({0, 0, 0, 1, 1, 2, 3, 3}), range(1, kMaxProd), range(0, 3), range(0, 300), range(1, 1 << 30)});
     auto sched = mkop(SCHED, {range(0, 3), oneOfValues({0, 100, 500, 1000}), oneOfValues({0, 20, 200, 1500})});
